@@ -30,6 +30,10 @@ type Fn struct {
 	// Subst overrides the canonical name of selected objects (e.g. "$res").
 	Subst map[types.Object]string
 	prod  *Product
+	Outer *Fn // enclosing function of a literal
+	// AtomRename maps normalised atom keys to role names (see Roles).
+	AtomRename func(string) string
+	defCache map[*types.Var]defInfo
 }
 
 // Vertex kinds.
@@ -91,7 +95,7 @@ func (f *Fn) Lit(lit *ast.FuncLit, label string) *Fn {
 	if g := f.P.fnCache[lit.Body]; g != nil {
 		return g
 	}
-	g := &Fn{P: f.P, Pkg: f.Pkg, Info: f.Info, Src: f.Src, Name: f.Name + "$" + label, Body: lit.Body, Type: lit.Type, Recv: f.Recv}
+	g := &Fn{P: f.P, Pkg: f.Pkg, Info: f.Info, Src: f.Src, Name: f.Name + "$" + label, Body: lit.Body, Type: lit.Type, Recv: f.Recv, Outer: f}
 	g.fillParams()
 	g.build()
 	f.P.fnCache[lit.Body] = g
